@@ -17,6 +17,7 @@ func init() {
 	vrt.Register("C12_fixed", Fixed)
 	vrt.Register("C12_auto_supplied", AutoSupplied)
 	vrt.Register("C12_variadic", Variadic)
+	vrt.Register("C12_callee_expressions", CalleeExpressions)
 	vrt.Register("C12_rejected", Rejected)
 	vrt.Register("C12_results", Results)
 	vrt.Register("C12_evaluation_order", EvaluationOrder)
@@ -655,5 +656,52 @@ func ChainedCalls() {
 	vrt.Assert(err == nil, "a chained helper call renders")
 	vrt.Assert(strings.Join(r.log, ";") == c.log, "each call of a chain receives its own arguments and its own block (the head none)")
 	vrt.Assert(out == "["+c.out+"]", "the value of the chain is the last call's first result")
+	vrt.Cover("done")
+}
+
+// ---- the function is produced by an expression (an indexed slice or map of
+// functions, the result of another call) whose printed form may contain a dot;
+// a trailing result of a pointer type that implements error and is nil is no error
+type rowP struct{ I int }
+
+type myErr struct{}
+
+func (*myErr) Error() string { return "myErr" }
+
+func CalleeExpressions() {
+	n := vrt.Int()
+	ctx := plush.NewContext()
+	ctx.Set("n", n)
+	ctx.Set("p", rowP{I: 1})
+	ctx.Set("fs", []func(int) int{func(x int) int { return x + 1 }, func(x int) int { return x + 2 }})
+	ctx.Set("m", map[string]func(int) int{"a.b": func(x int) int { return x + 3 }, "ab": func(x int) int { return x + 4 }})
+	ctx.Set("curry", func(f float64) func(int) int { return func(x int) int { return x + int(f) } })
+	ctx.Set("okp", func() (int, *myErr) { return n, nil })
+	ctx.Set("badp", func() (int, *myErr) { return n, &myErr{} })
+	ctx.Set("oke", func() (int, error) { return n, nil })
+	type cs struct {
+		in   string
+		want string
+		fail bool
+	}
+	cases := []cs{
+		{"fs[0](n)", itoa(n + 1), false},
+		{"fs[p.I](n)", itoa(n + 2), false},
+		{"m[\"ab\"](n)", itoa(n + 4), false},
+		{"m[\"a.b\"](n)", itoa(n + 3), false},
+		{"curry(1.5)(n)", itoa(n + 1), false},
+		{"curry(2.0)(n)", itoa(n + 2), false},
+		{"okp()", itoa(n), false},
+		{"oke()", itoa(n), false},
+		{"badp()", "", true},
+	}
+	c := cases[vrt.Choice(len(cases))]
+	got, err := render("[<%= "+c.in+" %>]", ctx)
+	if c.fail {
+		vrt.Assert(err != nil, "a non-nil trailing error result fails the render: "+c.in)
+	} else {
+		vrt.Assert(err == nil, "a function produced by an expression is called; a nil trailing error is no error: "+c.in)
+		vrt.Assert(got == "["+c.want+"]", "the function's first result is the call's value: "+c.in)
+	}
 	vrt.Cover("done")
 }
